@@ -10,7 +10,7 @@ import os
 from gen import irgen
 from vlib import core, passlib
 
-COQ_TARGETS = ["Props/C16.vo"]
+COQ_TARGETS = ["Props/C16.vo", "Model/Spec16.vo"]
 PROPS = "Props/C16.v"
 TRUSTED = [
     "hand-written model of FromAST / structObjectToBuilder / structFieldToOption / FieldAssignment / ResolveToType (coq/Model/Builders.v); VeneerTrail not modelled",
